@@ -19,7 +19,7 @@ PROPS["C18"] = prop(
     "server is not modelled. The fake PostgreSQL server models the aborted-transaction state (25P02 until ROLLBACK / ROLLBACK TO SAVEPOINT, COMMIT of an aborted block "
     "answers ROLLBACK); the fake MySQL server keeps the transaction usable after a failed statement, as MySQL does. Adapters run with sql_timeout unset (a legal "
     "configuration), so no context cancellation can roll back behind the adapter's back; deadline expiry is only covered by the thorough-tier Stall units. "
-    "Of the store-level compositions in store.go only account creation (Users.Create = UserCreate + TopicShare + compensating delete) is judged (unit TestC18StoreAccount, in-memory adapter); a hard delete whose SQL affects other rows than intended cannot be seen without a DBMS. MongoDB/RethinkDB adapters are not exercised.",
+    "Of the store-level compositions in store.go account creation (Users.Create = UserCreate + TopicShare + compensating delete; unit TestC18StoreAccount), message-range deletion (Messages.DeleteList = MessageDeleteList + TopicUpdate + SubsUpdate) and group creation (Topics.Create = TopicCreate + TopicShare; unit TestC18StoreOps) are judged on the in-memory adapter; a hard delete whose SQL affects other rows than intended cannot be seen without a DBMS. MongoDB/RethinkDB adapters are not exercised.",
     "5/C18", "sql-fault",
     [Unit("TestC18MySQLEnum", C18MY, rapid=False, tags="mysql", shards_quick=1, shards_thorough=1, n_quick=4000, n_thorough=1000000, timeout_quick=300, timeout_thorough=3600),
      Unit("TestC18PostgresEnum", C18PG, rapid=False, tags="postgres", shards_quick=1, shards_thorough=1, n_quick=4000, n_thorough=1000000, timeout_quick=300, timeout_thorough=3600),
@@ -27,7 +27,8 @@ PROPS["C18"] = prop(
      Unit("TestC18PostgresStall", C18PG, rapid=False, tags="postgres", shards_quick=1, shards_thorough=1, timeout_quick=120, timeout_thorough=1800),
      Unit("TestC18MySQL", C18MY, tags="mysql", quick=1500, thorough=40000, shards_quick=3, shards_thorough=8, timeout_quick=300, timeout_thorough=3600),
      Unit("TestC18Postgres", C18PG, tags="postgres", quick=1500, thorough=40000, shards_quick=3, shards_thorough=8, timeout_quick=300, timeout_thorough=3600),
-     Unit("TestC18StoreAccount", "server", quick=4000, thorough=200000, shards_quick=2, shards_thorough=8, timeout_quick=300)],
+     Unit("TestC18StoreAccount", "server", quick=4000, thorough=200000, shards_quick=2, shards_thorough=8, timeout_quick=300),
+     Unit("TestC18StoreOps", "server", quick=3000, thorough=100000, shards_quick=2, shards_thorough=8, timeout_quick=300)],
     ["a duplicate-key error on INSERT INTO subscriptions is tolerated by createSubscription (turned into an UPDATE; PostgreSQL: after ROLLBACK TO SAVEPOINT) and a "
      "duplicate-key error on INSERT INTO usertags is tolerated by UserUpdateTags without reset (addTags ignoreDups) on MySQL: committing after these is not a violation",
      "a COMMIT that fails ends the transaction at the server without making it durable (as MySQL and PostgreSQL do); ROLLBACK itself is never failed",
